@@ -48,7 +48,11 @@ class VmDiscover:
         # Go to the next object in the member iteration.
         name_list = self._set_by_oper(self._param_to_value(name))
         current = self._param_to_value(current)
-        if not self._reg.disc_forward:
+        if name_list is None:
+            # The group or location has lost its last member since the
+            # iteration started.
+            self._reg.result = Operand.NULL
+        elif not self._reg.disc_forward:
             self._reg.result = name_list.prev(current) or Operand.NULL
         else:
             self._reg.result = name_list.next(current) or Operand.NULL
